@@ -136,7 +136,7 @@ PoolRun(o) ==
   /\ Emit(<<E("bstart", o), E("bdone", o)>>)
   /\ UNCHANGED <<phase, rc, sq, kern, kcancel, cq, inflight, cflag, hasres, mores, token, drv, lost>>
 
-\* Proactor::poll: poll_blocking, submit, poll_entries
+\* Proactor::poll: poll_blocking, then submit, poll_entries
 RECURSIVE ChanFold(_, _, _, _)
 ChanFold(c, r, hr, evs) ==
   IF c = <<>> THEN <<r, hr, evs>>
@@ -146,17 +146,16 @@ ChanFold(c, r, hr, evs) ==
 
 Poll ==
   /\ drv = "live"
-  /\ IF chan # <<>>
-       THEN \* poll_blocking found entries: early return
-            LET f == ChanFold(chan, rc, hasres, <<>>) IN
-              /\ rc' = f[1] /\ hasres' = f[2] /\ Emit(f[3])
-              /\ chan' = <<>>
-              /\ UNCHANGED <<sq, kern, kcancel, cq, inflight>>
-       ELSE LET f == PollFold(cq \o EagerCq, rc, inflight, hasres, <<>>) IN
-              /\ rc' = f[1] /\ inflight' = f[2] /\ hasres' = f[3] /\ Emit(f[4])
-              /\ kern' = KernAfterSubmit /\ kcancel' = KCancelAfterSubmit
-              /\ sq' = <<>> /\ cq' = <<>>
-              /\ UNCHANGED chan
+  \* poll_blocking delivers the entries of the completed channel; poll then goes on (without waiting when there were
+  \* any): submit, poll_entries.  (Before fix 3888dbb poll returned right after poll_blocking had found entries and
+  \* left the submission and completion queues to the next call - at this level only the grouping of the hook events
+  \* into Poll steps differs, no property of this module depends on it; the externally driven runtime that did
+  \* depend on it is modelled in CompatLoop, control "oldPollBlocking".)
+  /\ LET fc == ChanFold(chan, rc, hasres, <<>>)
+         f == PollFold(cq \o EagerCq, fc[1], inflight, fc[2], fc[3]) IN
+       /\ rc' = f[1] /\ inflight' = f[2] /\ hasres' = f[3] /\ Emit(f[4])
+       /\ kern' = KernAfterSubmit /\ kcancel' = KCancelAfterSubmit
+       /\ sq' = <<>> /\ cq' = <<>> /\ chan' = <<>>
   /\ UNCHANGED <<phase, cflag, mores, jobs, token, drv, lost>>
 
 \* Proactor::pop
